@@ -543,8 +543,18 @@ class Pos2Kw(ast.NodeTransformer):
     """f(a, b, c) -> f(a, b=b_, c=c_): positional arguments after the first are passed by keyword, for callees defined in the same module
     (module functions by name; methods through self. / cls. / ClassName.) whose signature has no *args / **kwargs / positional-only part"""
 
+    extern = None   # {local name: ("func", (params, vararg, n_posonly)) | ("class", {method: (params, vararg, n_posonly, static)})} of imported package callees
+
     def visit_Module(self, mod):
         self.funcs, self.classes = _module_callables(mod)
+        bound = _bound_names(mod)
+        for nm, sig in (self.extern or {}).items():
+            if nm in bound or nm in self.funcs or nm in self.classes:
+                continue
+            if sig[0] == "func":
+                self.funcs[nm] = (sig[1][0], bool(sig[1][1] or sig[1][2]))
+            else:
+                self.classes[nm] = {m: (v[0], bool(v[1] or v[2])) for m, v in sig[1].items() if v[3] or m == "__init__"}
         self.cls = None
         self.generic_visit(mod)
         return mod
@@ -563,6 +573,8 @@ class Pos2Kw(ast.NodeTransformer):
         f = c.func
         if isinstance(f, ast.Name) and f.id in self.funcs:
             sig = self.funcs[f.id]
+        elif isinstance(f, ast.Name) and f.id in self.classes and "__init__" in self.classes[f.id] and self.extern and f.id in self.extern:
+            sig = self.classes[f.id]["__init__"]
         elif isinstance(f, ast.Attribute) and isinstance(f.value, ast.Name):
             if f.value.id in ("self", "cls") and self.cls and f.attr in self.classes.get(self.cls, {}):
                 sig = self.classes[self.cls][f.attr]
@@ -586,8 +598,25 @@ class Pos2Kw(ast.NodeTransformer):
 KINDS = {"pos2kw": Pos2Kw, "mergeif": MergeIf, "splitif": SplitIf, "elsewrap": ElseWrap, "unelse": UnElse, "ternary2if": Ternary2If, "demorgan": DeMorgan, "unguard": UnGuard, "imports": ImportStyle, "comp2loop": Comp2Loop, "swapindep": SwapIndependent, "splitunpack": SplitUnpack, "flip": Flip, "invert": Invert, "kwargs": Kwargs, "aug": Aug, "noise": Noise, "annot": Annot, "inlinetemp": InlineTemp, "extracttemp": ExtractTemp}
 
 
-def reshaped(src: str, kind: str) -> str:
-    t = KINDS[kind]().visit(ast.parse(src))
+_EXTERNS = {}
+
+
+def _externs_for(root: str, rel):
+    if rel is None:
+        return None
+    if root not in _EXTERNS:
+        import sys as _sys
+        _sys.path.insert(0, os.path.dirname(os.path.dirname(os.path.dirname(os.path.abspath(__file__)))))
+        from sa.core import package_signatures
+        _EXTERNS[root] = package_signatures(root)[0]
+    return _EXTERNS[root].get(rel)
+
+
+def reshaped(src: str, kind: str, rel=None, root: str = "/repo") -> str:
+    tr = KINDS[kind]()
+    if kind == "pos2kw":
+        tr.extern = _externs_for(root, rel)
+    t = tr.visit(ast.parse(src))
     ast.fix_missing_locations(t)
     out = ast.unparse(t)
     compile(out, "<reshaped>", "exec")
@@ -602,7 +631,7 @@ def reshaped_package(root: str, kind: str, package: str = "synkit"):
             if f.endswith(".py"):
                 path = os.path.join(dp, f)
                 try:
-                    out[os.path.relpath(path, root)] = reshaped(open(path, encoding="utf-8").read(), kind)
+                    out[os.path.relpath(path, root)] = reshaped(open(path, encoding="utf-8").read(), kind, os.path.relpath(path, root), root)
                 except Exception:
                     continue
     return out
